@@ -129,7 +129,7 @@ CHECKS = {
                        "the same transfer with one injected fault: connection lost / closed by either side at a "
                        "drawn byte position of any stream and direction (quick: sampled; all positions of small fixed workloads are "
                        "enumerated with stride 3, thorough stride 1), a bit flip in a chunk payload or checksum, abort (cancel+close) of "
-                       "either side at a drawn hook hit, source file shortened or deleted after the scan (before or during the run), "
+                       "either side at a drawn hook hit, source file shortened or deleted after the scan (before or during the run; with a same-named look-alike below the sender's working directory), "
                        "obstructed output paths; plus a delay plan on the receiver's racing exit paths. Oracle: receiver nil => whole "
                        "tree identical to the tree as scanned; sender nil => a FileDone{ok} for every file on the wire and identical "
                        "tree; both return before the idle watchdog (4 s without any byte) fires."),
@@ -187,14 +187,18 @@ CHECKS = {
                        "id, size or chunk size with all chunks marked; data file deleted or shortened; highest or a lower marked chunk "
                        "damaged on disk; chunk size changed) and resumed through the real endpoints with the sender's verification hash "
                        "delayed by a drawn amount. Oracle: success implies an identical tree (else the endpoints must fail); a damaged "
-                       "highest chunk must be repaired when hashing is on."),
+                       "highest chunk must be repaired when hashing is on. Unit 'source': metadata left by a real first attempt (complete or "
+                       "cut), then the selected files or the targets of selected symbolic links are rewritten in place (same or other "
+                       "length, mtime moved by hours), re-pointed or change kind, then a second attempt after a fresh production scan; "
+                       "success implies the tree equals the source as it is then."),
         "level_note": "Trusted: CRC32C/xxhash collisions ignored (2^-32); the prior state is constructed by the harness with the production sidecar writer; lower-chunk damage is a counted negative control only.",
         "technique": "bounded-exhaustive mutation (all bit flips/truncations) of valid sidecars + property-based resumed transfers over tampered prior state with whole-tree oracle (rapid)",
         "rule": ("parser: all single-bit flips and truncations of 5 (thorough 60) valid sidecars + rapid damage kinds; transfer: case = "
                  "tree x chunk x streams x root mode x hash alg x prior marks x tamper kind/position x hash delay. Non-trivial = a file "
                  "with >= 2 marked and >= 1 unmarked chunk (transfer) / every enumerated sidecar (parser); distinct by tamper kind, "
-                 "position class, delay and workload fingerprint."),
-        "assumptions": ["hash collisions are not searched for"],
+                 "position class, delay and workload fingerprint; unit 'source': non-trivial = metadata of the first attempt present and a "
+                 "changed file of >= 2 chunks, distinct by change list, first-attempt outcome and workload."),
+        "assumptions": ["hash collisions are not searched for", "a rewrite that keeps path, size and modification second is indistinguishable by the tool's design and not generated"],
         "exhaustive_if_units": ["parser"],
         "units": [
             {"name": "transfer", "pkg": T, "run": "^TestVerifC06",
@@ -203,6 +207,9 @@ CHECKS = {
             {"name": "xfer", "pkg": X, "run": "^TestVerifC06",
              "quick": {"checks": 300, "shards": 6, "timeout": 900},
              "thorough": {"checks": 2500, "shards": 16, "timeout": 3400}},
+            {"name": "source", "pkg": X, "run": "^TestVerifSrcC06",
+             "quick": {"checks": 300, "shards": 4, "timeout": 900},
+             "thorough": {"checks": 3000, "shards": 16, "timeout": 3400}},
         ],
     },
     "C04": {
@@ -361,17 +368,23 @@ CHECKS = {
                        "inconsistent records, absurd counts and lengths, bad CRC, truncated records, early End) against the real "
                        "RecvManifestMultiStream / SendManifestMultiStream, then ends its input; cases run in batches inside a child "
                        "process so that a panic in a background goroutine is attributed to its case. Oracle: no crash, the endpoint "
-                       "returns within 2.5 s after the input ended, allocation <= 16 MiB + 16 x bytes exchanged."),
+                       "returns within 2.5 s after the input ended, allocation <= 16 MiB + 16 x bytes exchanged. Unit 'dumb': the benchmark receive "
+                       "mode (recvDumbDiscardMulti) over 1-4 in-memory connections carrying valid, cut, absurd-size, garbage or no streams; "
+                       "oracle: no panic, returns within 20 s after every input ended, error whenever a stream ended inside its record."),
         "level_note": "Memory is measured per case, not proven bounded; the allocation bounds are far above what honest sessions of the same size need (calibrated) and far below the 1 GiB-4 GiB a trusted length prefix costs.",
         "technique": "fuzz-style generated and enumerated malformed input (truncation/splice enumeration + rapid) against decoders, and stage-aware hostile-peer scripts against the real endpoints, with crash / termination / allocation oracles",
         "rule": ("decoders: (decoder, bytes) cases; staged: (side, stage, deviation, argument, close mode) cases drawn from a seeded PRNG. "
                  "Non-trivial = input of >= 5 bytes (decoders) / every staged case (each gets past the magic and at least one "
-                 "length-prefixed field or deviates at a later stage); distinct by input prefix / case description."),
+                 "length-prefixed field or deviates at a later stage); distinct by input prefix / case description; dumb: non-trivial = "
+                 ">= 2 connections with at least one broken stream, distinct by stream kinds and lengths."),
         "assumptions": ["allocation measured with runtime.MemStats.TotalAlloc in a process that runs one case at a time"],
         "units": [
             {"name": "transfer", "pkg": T, "run": "^TestVerifC15Decoders|^TestVerifC15Staged",
              "quick": {"checks": 3000, "shards": 4, "timeout": 900, "env": {"VERIF_C15_CASES": 200}},
              "thorough": {"checks": 40000, "shards": 16, "timeout": 3400, "env": {"VERIF_C15_CASES": 3000}}},
+            {"name": "dumb", "pkg": "./internal/app", "run": "^TestVerifC15Dumb",
+             "quick": {"checks": 1500, "shards": 2, "timeout": 900},
+             "thorough": {"checks": 40000, "shards": 8, "timeout": 3400}},
         ],
     },
     "C10": {
